@@ -46,7 +46,7 @@ ASSUMPTIONS = [
 
 IMPORTS = ("From Coq Require Import NArith ZArith List.\n"
            "From DvcData Require Import Base.Val Base.PyBase Base.PyStream Gen.Hash Model.HashStream.")
-IMPORTS_MD5 = IMPORTS + "\nFrom DvcData Require Import Base.MD5."
+IMPORTS_MD5 = IMPORTS + "\nFrom DvcData Require Import Proofs.HashStreamMD5."
 
 TEXT = frozenset(range(32, 127)) | {10, 13, 9, 12, 8}
 D2U = "md5-dos2unix"
@@ -690,8 +690,7 @@ def run(ctx):
     if items:
         ctx.correspond(
             "md5_gallina", IMPORTS_MD5, "list N * Z * list N * list N",
-            "fun i => let '(name, chunk, content, cuts) := i in "
-            "match fobj_md5 name chunk content cuts with DriveOk s _ => VB (md5_hex (hs_hasher s)) | _ => VL [] end",
+            "fun i => let '(name, chunk, content, cuts) := i in md5_fobj name chunk content cuts",
             items, shard=3)
     ctx.extra["algorithms_available"] = avail
 
